@@ -24,6 +24,8 @@ LCM(a, b) == (a \div GCD(a, b)) * b
 (* the same rational point / fraction in lowest terms (keeps TLC's 32-bit integers small) *)
 Reduced(p) == LET g == GCD(GCD(p[1], p[2]), GCD(p[3], p[4])) IN <<p[1] \div g, p[2] \div g, p[3] \div g, p[4] \div g>>
 ReducedFrac(q) == LET g == GCD(q[1], q[2]) IN <<q[1] \div g, q[2] \div g>>
+(* the elements of a finite set of integers in increasing order *)
+SortedSeq(S) == [m \in 1..Cardinality(S) |-> CHOOSE x \in S : Cardinality({y \in S : y < x}) = m - 1]
 SeqRange(s) == {s[k] : k \in 1..Len(s)}
 RealCount(nodes, i) == Cardinality({j \in 1..i : ~IsNone(nodes[j])})
 
@@ -39,13 +41,13 @@ DefaultLabels(nodes) == [m \in 1..RealCount(nodes, Len(nodes)) |-> ToString(m)]
 Dist2(a, b, A) == Sq((a[1] - b[1]) * A[1][1] + (a[2] - b[2]) * A[2][1] + (a[3] - b[3]) * A[3][1])
                 + Sq((a[1] - b[1]) * A[1][2] + (a[2] - b[2]) * A[2][2] + (a[3] - b[3]) * A[3][2])
                 + Sq((a[1] - b[1]) * A[1][3] + (a[2] - b[2]) * A[2][3] + (a[3] - b[3]) * A[3][3])
-(* round(sqrt(s2) / dk) with 1/dk = inv[1]/inv[2] in the units of A:  the n with (2n-1)^2 < 4 s2 / dk^2 < (2n+1)^2.
+(* round(sqrt(s2) / dk) with 1/dk = inv[1]/inv[2] in the units of A: the n with (2n-1)^2 < 4 s2 / dk^2 < (2n+1)^2, i.e.
+   the first n with 4 s2 / dk^2 <= (2n+1)^2 (TLC enumerates 0..bound in ascending order and stops there).
    A value exactly half-way (RoundTie) is excluded: the code rounds a floating-point quotient there. *)
 RoundBound(s2, inv) == 2 * s2 * inv[1] + 1
-RoundRatio(s2, inv) == CHOOSE n \in 0..RoundBound(s2, inv) :
-                          /\ (n = 0 \/ Sq(2 * n - 1) * Sq(inv[2]) < 4 * s2 * Sq(inv[1]))
-                          /\ 4 * s2 * Sq(inv[1]) < Sq(2 * n + 1) * Sq(inv[2])
-RoundTie(s2, inv) == \E n \in 0..RoundBound(s2, inv) : 4 * s2 * Sq(inv[1]) = Sq(2 * n + 1) * Sq(inv[2])
+RoundRatio(s2, inv) == CHOOSE n \in 0..RoundBound(s2, inv) : 4 * s2 * Sq(inv[1]) <= Sq(2 * n + 1) * Sq(inv[2])
+RoundTie(s2, inv) == 4 * s2 * Sq(inv[1]) = Sq(2 * RoundRatio(s2, inv) + 1) * Sq(inv[2])
+RoundIsNearest(s2, inv) == LET n == RoundRatio(s2, inv) IN n = 0 \/ Sq(2 * n - 1) * Sq(inv[2]) < 4 * s2 * Sq(inv[1])
 
 (* nk specification, a record [mode, nk, inv, A]: mode "int" (nk = <<n>>), "list" (nk = <<n1, n2, ..>>, one per sampled
    segment), "dk" or "length" (inv = <<p, q>> = 1/dk in the units of the integer lattice A; length = 2 pi / dk).
@@ -77,7 +79,7 @@ ZipFinish(st, last, llast) == [K |-> Append(st.K, Pt(last)), labels |-> Append(s
 
 RECURSIVE ZipLoop(_, _, _, _, _)
 ZipLoop(st, i, nodes, nl, spec) ==
-   IF i > Len(nodes) - 1 THEN st ELSE ZipLoop(ZipStep(st, nodes[i], nodes[i + 1], nl[i], spec), i + 1, nodes, nl, spec)
+   IF i > Len(nodes) - 1 THEN st ELSE ZipLoop(TLCEval(ZipStep(st, nodes[i], nodes[i + 1], nl[i], spec)), i + 1, nodes, nl, spec)
 (* labels: the per-real-node label sequence (use DefaultLabels(nodes) for labels=None) *)
 FromNodes(nodes, labels, spec) ==
    LET nl == NodeLabels(nodes, labels)
@@ -106,8 +108,8 @@ PosSeq(nodes, spec) ==
        pos[k \in 1..Len(nodes)] == IF k = 1 THEN 0 ELSE pos[k - 1] + cnt(k - 1)
    IN TLCEval([k \in 1..Len(nodes) |-> pos[k]])
 Pos(nodes, spec, i) == PosSeq(nodes, spec)[i]
-RealPositions(nodes) == SetToSortSeq({i \in 1..Len(nodes) : ~IsNone(nodes[i])}, <)
-BreakPositions(nodes) == SetToSortSeq({i \in 1..Len(nodes) : StartsBreak(nodes, i)}, <)
+RealPositions(nodes) == SortedSeq({i \in 1..Len(nodes) : ~IsNone(nodes[i])})
+BreakPositions(nodes) == SortedSeq({i \in 1..Len(nodes) : StartsBreak(nodes, i)})
 
 NodesInOrder(nodes, spec, P) ==       \* every node is a path point, in the order of the node list
    LET pos == PosSeq(nodes, spec) IN
@@ -145,8 +147,8 @@ RefStep(r, P, i, f) ==
    IN IF i \in BreakSet(P) THEN r1
       ELSE [r1 EXCEPT !.K = @ \o [j \in 1..(f - 1) |-> Interp(P.K[i + 1], P.K[i + 2], j, f)]]
 RECURSIVE RefLoop(_, _, _, _)
-RefLoop(r, P, i, f) == IF i >= Len(P.K) - 1 THEN r ELSE RefLoop(RefStep(r, P, i, f), P, i + 1, f)
-Refined(P, f) == RefAppend(RefLoop(RefInit, P, 0, f), P, Len(P.K) - 1)
+RefLoop(r, P, i, f) == IF i >= Len(P.K) - 1 THEN r ELSE RefLoop(TLCEval(RefStep(r, P, i, f)), P, i + 1, f)    \* TLCEval: evaluate eagerly
+Refined(P, f) == TLCEval(RefAppend(RefLoop(RefInit, P, 0, f), P, Len(P.K) - 1))
 
 (* domain: the labels dict is listed by increasing index, breaks increasing, all indices inside the path *)
 PathOK(P) == /\ Len(P.K) >= 1
@@ -159,13 +161,15 @@ KlineOK(P) == \A k \in 1..Len(P.breaks) : P.breaks[k] < Len(P.K) - 1
 
 (* where original point i goes: every non-break step before it is divided into f *)
 RefIdx(P, f, i) == f * i - (f - 1) * Cardinality({b \in BreakSet(P) : b < i})
-KeepsPoints(P, f, R) == \A i \in 0..(Len(P.K) - 1) : RefIdx(P, f, i) < Len(R.K) /\ PtEq(R.K[RefIdx(P, f, i) + 1], P.K[i + 1])
+RefIdxSeq(P, f) == TLCEval([k \in 1..Len(P.K) |-> RefIdx(P, f, k - 1)])      \* RefIdx of point k-1, evaluated once
+KeepsPoints(P, f, R) == LET ri == RefIdxSeq(P, f) IN \A k \in 1..Len(P.K) : ri[k] < Len(R.K) /\ PtEq(R.K[ri[k] + 1], P.K[k])
 KeepsLabels(P, f, R) == R.labels = [k \in 1..Len(P.labels) |-> <<RefIdx(P, f, P.labels[k][1]), P.labels[k][2]>>]
 KeepsBreaks(P, f, R) == R.breaks = [k \in 1..Len(P.breaks) |-> RefIdx(P, f, P.breaks[k])]
 RefLength(P, f, R) == Len(R.K) = RefIdx(P, f, Len(P.K) - 1) + 1
 RefUniform(P, f, R) ==         \* the f-1 new points of every non-break step divide it uniformly
-   \A i \in 0..(Len(P.K) - 2) : i \notin BreakSet(P) =>
-      \A j \in 0..f : IsInterp(R.K[RefIdx(P, f, i) + j + 1], P.K[i + 1], P.K[i + 2], j, f)
+   LET ri == RefIdxSeq(P, f) bset == BreakSet(P) IN
+   \A i \in 0..(Len(P.K) - 2) : i \notin bset =>
+      \A j \in 0..f : IsInterp(R.K[ri[i + 1] + j + 1], P.K[i + 1], P.K[i + 2], j, f)
 RefNoBreaks(P, f, R) == BreakSet(P) = {} => \A i \in 0..(Len(P.K) - 1) : PtEq(R.K[f * i + 1], P.K[i + 1])
 SamePath(P, Q) == /\ Len(P.K) = Len(Q.K) /\ \A k \in 1..Len(P.K) : PtEq(P.K[k], Q.K[k])
                   /\ P.labels = Q.labels /\ P.breaks = Q.breaks
@@ -193,10 +197,11 @@ KlineFlatAtBreaks(P, A) == \A b \in BreakSet(P) : b < Len(P.K) - 1 => Step2(P, A
 KlineIsDistance(P, A) == \A j \in 0..(Len(P.K) - 2) : j \notin BreakSet(P) => Step2(P, A, NoThresh, j) = PDist2(P.K[j + 1], P.K[j + 2], A)
 (* refinement does not move the original points along the path: each of the f sub-steps is 1/f of the original step *)
 KlineRefined(P, f, R, A) ==
+   LET ri == RefIdxSeq(P, f) bset == BreakSet(P) IN
    \A i \in 0..(Len(P.K) - 2) :
       LET s == Step2(P, A, NoThresh, i) IN
-      IF i \in BreakSet(P) THEN Step2(R, A, NoThresh, RefIdx(P, f, i))[1] = 0
-      ELSE \A j \in 0..(f - 1) : LET t == Step2(R, A, NoThresh, RefIdx(P, f, i) + j) IN t[1] * Sq(f) * s[2] = s[1] * t[2]
+      IF i \in bset THEN Step2(R, A, NoThresh, ri[i + 1])[1] = 0
+      ELSE \A j \in 0..(f - 1) : LET t == Step2(R, A, NoThresh, ri[i + 1] + j) IN t[1] * Sq(f) * s[2] = s[1] * t[2]
 (* a path from nodes: inside a segment all steps are equal, nk-1 of them make up the node distance *)
 KlineUniform(nodes, spec, P, A) ==
    LET pos == PosSeq(nodes, spec) nk == NkSeq(nodes, spec) IN
@@ -207,7 +212,7 @@ KlineUniform(nodes, spec, P, A) ==
 (* ---- Path.get_K_list(k_batch): for ik in range(0, len, k_batch): K_list[ik:ik+k_batch] ---- *)
 BatchStep(bs, P, ik, kb) == Append(bs, SubSeq(P.K, ik + 1, Min({ik + kb, Len(P.K)})))
 RECURSIVE BatchLoop(_, _, _, _)
-BatchLoop(bs, P, ik, kb) == IF ik >= Len(P.K) THEN bs ELSE BatchLoop(BatchStep(bs, P, ik, kb), P, ik + kb, kb)
+BatchLoop(bs, P, ik, kb) == IF ik >= Len(P.K) THEN bs ELSE BatchLoop(TLCEval(BatchStep(bs, P, ik, kb)), P, ik + kb, kb)
 Batches(P, kb) == BatchLoop(<<>>, P, 0, kb)
 BatchesConcat(bs, P) == FlattenSeq(bs) = P.K
 BatchesSizes(bs, P, kb) == /\ \A t \in 1..Len(bs) : Len(bs[t]) >= 1 /\ Len(bs[t]) <= kb
